@@ -5,10 +5,16 @@
 (* For an entry point e with a corpus of valid inputs, the inputs are      *)
 (*   valid            the corpus item itself                               *)
 (*   truncate(k)      every proper prefix                                  *)
-(*   substitute(p,v)  every position p; v in 7 values (quick) or all 256   *)
+(*   substitute(p,v)  every position p; v in 7 values (quick; krb5.conf:   *)
+(*                    the 19 characters with a meaning) or all 256          *)
 (*   setlen(f,v)      DER formats: every length octet found by walking the *)
 (*                    TLV structure, replaced by 12 encodings (0, 1, +-1,  *)
 (*                    0x7f, indefinite, long forms up to 2^64-1)           *)
+(*   setword(p,w)     binary (non-DER) formats, thorough: DER too: at every *)
+(*                    position 2, 4 or 8 octets overwritten by the values   *)
+(*                    at which arithmetic on a length, count or offset      *)
+(*                    field goes wrong (0, -1, -4, -8, min, max; both byte  *)
+(*                    orders)                                               *)
 (*   line(i,r)        krb5.conf: every line replaced by / preceded by 11   *)
 (*                    structure-breaking lines                             *)
 (* "Did it panic" is an observation, not something a model decides; the    *)
@@ -17,7 +23,7 @@
 (*   Outcome \in {value, error}, alloc <= 64 * len + 1 MiB, time <= 2 s.    *)
 (***************************************************************************)
 EXTENDS Integers, Sequences, FiniteSets, TLC
-Classes == {"valid", "truncate", "substitute", "setlen", "line"}
+Classes == {"valid", "truncate", "substitute", "setlen", "setword", "line"}
 AllowedOutcomes == {"value", "error"}
 AllocBoundPermille == 1000                \* observed allocation / (64 * len + 1 MiB), in thousandths
 TimeBoundMs == 2000
